@@ -11,6 +11,7 @@ import (
 	"encoding/json"
 	"fmt"
 	"os"
+	"strings"
 	"time"
 
 	"go.sia.tech/core/types"
@@ -71,6 +72,11 @@ func runCase(cs poolsim.Case, coqWanted bool) (coqOut string, failOut *failure, 
 	defer func() {
 		if p := recover(); p != nil {
 			coqOut, failOut = "", &failure{"c05-state-corrupted", fmt.Sprint("the history broke an invariant of the harness (memory shared with the manager was modified?): ", p)}
+			if fail != nil {
+				failOut = fail // the monitor that fired first names the violation
+			} else if strings.Contains(fmt.Sprint(p), "mined block rejected") || strings.Contains(fmt.Sprint(p), "twin rejected") {
+				failOut = &failure{"c05-mined-block-rejected", fmt.Sprint("a block assembled from the pool does not replay on a fresh node: ", p)}
+			}
 			if stOut == nil {
 				stOut = stats{}
 			}
@@ -409,6 +415,20 @@ func corpus(seed uint64) []poolsim.Case {
 		c.Plan = []poolsim.Step{all(3), {Kind: "submit", Flavor: fmt.Sprintf("exact-fill-v2:%d", slack), Seed: 10 + seed}, {Kind: "mine"}, {Kind: "submit", Flavor: "fresh-v2", Seed: 4}}
 		out = append(out, c)
 	}
+	// a pool heavier than one block whose first non-fitting transaction has a small dependent behind it:
+	// only a prefix of the pool may be mined
+	c = lin(2, 3)
+	c.Seed += 101
+	c.Plan = []poolsim.Step{all(3), {Kind: "submit", Flavor: "filler-v2:1900000", Seed: 21 + seed}, {Kind: "submit", Flavor: "heavy-chain-v2", Seed: 22 + seed}, {Kind: "mine"}, {Kind: "mine"}, {Kind: "submit", Flavor: "fresh-v2", Seed: 23}}
+	out = append(out, c)
+	c = lin(0, 3)
+	c.Seed += 102
+	c.Plan = []poolsim.Step{all(3), {Kind: "submit", Flavor: "filler-v1", Seed: 24 + seed}, {Kind: "submit", Flavor: "heavy-chain-v1", Seed: 25 + seed}, {Kind: "mine"}, {Kind: "mine"}}
+	out = append(out, c)
+	c = lin(1, 4)
+	c.Seed += 103
+	c.Plan = []poolsim.Step{all(4), {Kind: "submit", Flavor: "filler-v1", Seed: 26 + seed}, {Kind: "submit", Flavor: "heavy-chain-v2", Seed: 27 + seed}, {Kind: "mine"}, {Kind: "mine"}}
+	out = append(out, c)
 	// a full pool: eviction by fee rate
 	c = lin(2, 3)
 	c.Plan = []poolsim.Step{all(3), {Kind: "fill", Flavor: "v2", N: 3, Seed: 5 + seed}, {Kind: "submit", Flavor: "fresh-v2", Seed: 6}, {Kind: "mine"}}
@@ -480,7 +500,7 @@ func run(c *hx.Ctx) {
 	for _, cs := range corpus(c.Seed) {
 		doCase(cs)
 	}
-	n := c.Scale(220, 4000)
+	n := c.Scale(205, 4000)
 	for i := 0; i < n; i++ {
 		g := c.R.Fork()
 		cs := poolsim.Case{Seed: g.U64(), Regime: []int{1, 2, 0, 1, 2, 4}[i%6], Opts: chaingen.GenOpts{Blocks: 5 + g.Intn(10), Branchiness: 2 + g.Intn(4), TxPerBlock: g.Intn(3), Jitter: g.Intn(3)}}
